@@ -134,8 +134,44 @@ def random_mask(rng, n):
     return m
 
 
-def random_block(rng, kind):
+LIMIT_SHAPES = [("Data2D", 1), ("Data2D", 2), ("EMG", 1), ("EMG", 2), ("Data3D", 1), ("Events", 1), ("ForcePlatformsData", 1)]
+
+
+def limit_block(kind, which):
+    """shapes at the limits of the counts the format stores: 16-bit point counts of 2D cells, runs that
+    cross the 2^16-th sample, events without values next to events with many"""
+    ids = iter(range(1, 10 ** 9))
+    nx = lambda: next(ids)  # noqa: E731
+    if kind == "Data2D":
+        counts = [32767, 32768, 65535] if which == 1 else [65535, 0, 1]
+        data = [[[[nx(), nx()] for _ in range(c)] for c in counts]]
+        return 2, dict(nFrames=1, frequency=nx(), startTime=nx(), flags=1, camMap=[nx() for _ in counts], data=data)
+    if kind == "EMG":
+        n = 65576 if which == 1 else 65536
+        gaps = {100} if which == 1 else {65535}
+        sig = lambda: dict(label=nx(), frames=[[] if i in gaps else [nx()] for i in range(n)])  # noqa: E731
+        return 1, dict(frequency=nx(), startTime=nx(), nSamples=n, chans=[nx(), nx()], signals=[sig(), sig()])
+    if kind == "Data3D":
+        n = 65540
+        return 1, dict(nFrames=n, frequency=nx(), startTime=nx(), flag=0, links=[],
+                       tracks=[dict(label=nx(), frames=[[] if i in (7, 65536) else [nx(), nx(), nx()] for i in range(n)])],
+                       volume=[nx() for _ in range(3)], rotationMatrix=[nx() for _ in range(9)], translationVector=[nx() for _ in range(3)])
+    if kind == "Events":
+        evs = [dict(label=nx(), type=0, values=[]), dict(label=nx(), type=1, values=[]), dict(label=nx(), type=0, values=[nx()]),
+               dict(label=nx(), type=1, values=[nx() for _ in range(300)]), dict(label=nx(), type=0, values=[])]
+        return 1, dict(startTime=nx(), events=evs)
+    if kind == "ForcePlatformsData":
+        n = 5
+        return 1, dict(frequency=nx(), startTime=nx(), nFrames=n, chans=[nx() for _ in range(3)],
+                       platforms=[dict(frames=[[nx() for _ in range(6)] if p else [] for p in m])
+                                  for m in ([0, 1, 1, 0, 1], [1, 1, 1, 1, 1], [0, 0, 0, 0, 0])])
+    raise ValueError(kind)
+
+
+def random_block(rng, kind, limit=0):
     """an abstract block (ids) of a shape far beyond the model-checked bound"""
+    if limit:
+        return limit_block(kind, limit)
     ids = iter(range(1, 10 ** 9))
     nx = lambda: next(ids)  # noqa: E731
     n = rng.choice([1, 2, 7, 64, 300])
@@ -224,7 +260,7 @@ def random_campaign_one(rp, props):
     return random_campaign(0, 1, props, fixed=rp)[0]
 
 
-def random_campaign(seed, count, props, fixed=None):
+def random_campaign(seed, count, props, fixed=None, limits=False):
     """-> (list of (clause, detail, replay), observations judged, tlc result)"""
     L = layout()
     rng = random.Random(seed)
@@ -235,11 +271,15 @@ def random_campaign(seed, count, props, fixed=None):
         kind = ab.BLOCK_KINDS[n % len(ab.BLOCK_KINDS)]
         bseed = rng.randrange(10 ** 9)
         r, style = n % 5, n % 12
+        limit = 0
         if fixed:
             kind, bseed, r, style = fixed["block_kind"], fixed["block_seed"], fixed["r"], fixed.get("style", 0)
-        fmt, b = random_block(random.Random(bseed), kind)
+            limit = fixed.get("limit", 0)
+        elif limits and n < len(LIMIT_SHAPES):
+            kind, limit = LIMIT_SHAPES[n]
+        fmt, b = random_block(random.Random(bseed), kind, limit)
         vals = Values(r=r, specials=True)
-        rp = dict(kind="bigblock", block_kind=kind, block_seed=bseed, r=r, style=style)
+        rp = dict(kind="bigblock", block_kind=kind, block_seed=bseed, r=r, style=style, limit=limit)
         try:
             obj = ab.gamma(kind, fmt, b, vals, style=style)
             enc = ab.encode(obj)
